@@ -868,7 +868,8 @@ fn bytelist_length_fields(t: &Type, b: &[u8]) -> Vec<(usize, SizeLength)> {
 /// 64*len + 50 000 allocations nor hold more than 64 MiB + 1 KiB*len.
 fn hostile(sh: &mut Shard, idx: u64, ty: &Type, tbytes: &[u8], b: &[u8], kind: &str) -> bool {
     let decl = declared_bytelist_len(ty, b);
-    sh.max("max.hostile.declared_len", decl);
+    // clamped: the orchestrator sums the coverage of sanitizer tiers with overflow checks on
+    sh.max("max.hostile.declared_len", decl.min(u32::MAX as u64));
     sh.evaluations += 1;
     sh.hit(&format!("hostile.{}", kind));
     let (res, st) = vmon_core::alloc::measure(|| vmon_core::catch(|| ty.to_json(&mut Cursor::new(b)).is_ok()));
